@@ -13,6 +13,7 @@ import Distill.Model.Convert
 import Distill.Model.Words
 import Distill.Model.Render
 import Distill.Model.Title
+import Distill.Model.Pagination
 namespace Distill.Slices
 open Distill Distill.Proto
 
@@ -285,6 +286,49 @@ def titleSlice : P String := do
   let i : TitleIn := { orig := orig.toList, h1 := if hasH1 then some h1.toList else none, headingMatch := hm }
   pure s!"{hex (String.ofList (documentTitle i))} {hex (String.ofList (resultTitle markup.toList i))}"
 
+def pinfoP : P Pg.PInfo := do
+  let n ← int; let u ← str; pure { num := n, url := u }
+
+def patP : P Pg.PatAtom := do
+  let k ← str; let v ← int; let ok ← bool; pure { key := k, value := v, validFor := ok }
+
+def pinfoStr (p : Pg.PInfo) : String := s!"{p.num}:{hex p.url}"
+
+/-- `pagenum docParses docURL docURLArg strPageURL escPageURL  ng (sign n (num url)*)*
+    nu (url parses nq pat* np pat*)*  nk key*  npu url*  row*` (rows are 0/1 strings, `-` when empty)
+    → the detected PageParamInfo and (next, prev) -/
+def pagenumSlice : P String := do
+  let docParses ← bool; let docURL ← str; let docArg ← str; let strPage ← str; let escPage ← str
+  let ng ← nat
+  let groups ← many ng (do
+    let sg ← int; let n ← nat; let l ← many n pinfoP
+    pure ({ list := l, deltaSign := sg } : Pg.PGroup))
+  let nu ← nat
+  let urls ← many nu (do
+    let u ← str; let ok ← bool
+    let nq ← nat; let q ← many nq patP
+    let np ← nat; let pth ← many np patP
+    pure ({ url := u, parses := ok, query := q, path := pth } : Pg.UrlAtoms))
+  let nk ← nat; let keys ← many nk str
+  let npu ← nat; let purls ← many npu str
+  let rows ← many nk tok
+  let isPaging : String → String → Bool := fun k u =>
+    match keys.idxOf? k, purls.idxOf? u with
+    | some i, some j => ((rows[i]?).getD "").toList[j]? == some '1'
+    | _, _ => false
+  let A : Pg.Atoms := { urls := urls, isPaging := isPaging, docURL := docURL, docParses := docParses }
+  let pi := Pg.detectParamInfo A groups docArg
+  let (next, prev) := Pg.numberPrevNext pi strPage escPage
+  let f := match pi.formula with | some (c, d) => s!"f{c},{d}" | none => "f-"
+  pure s!"{bstr pi.isPageNumber} {hex pi.pattern} [{" ".intercalate (pi.pages.map pinfoStr)}] {f} {hex pi.next} | {hex next} {hex prev}"
+
+/-- `prevnext nb banned* nc (href score)*` → the selected href -/
+def prevnextSlice : P String := do
+  let nb ← nat; let banned ← many nb str
+  let nc ← nat
+  let cs ← many nc (do let h ← str; let sc ← int; pure ({ href := h, score := sc } : Pg.Cand))
+  pure (hex (Pg.prevNextResult banned cs))
+
 def dispatch (slice : String) : Option (P String) :=
   match slice with
   | "docfilters" => some docfilters
@@ -299,6 +343,8 @@ def dispatch (slice : String) : Option (P String) :=
   | "countwords" => some countWordsSlice
   | "strip" => some stripSlice
   | "title" => some titleSlice
+  | "pagenum" => some pagenumSlice
+  | "prevnext" => some prevnextSlice
   | _ => none
 
 def answer (line : String) : String :=
